@@ -62,7 +62,7 @@ impl Prop for C02 {
         let items = Self::items(env);
         let it = &env.corpus.items[items[i / g.len()]];
         let (w, t) = g[i % g.len()];
-        Some(SrcCase { src: it.text.clone(), cfg: Cfg { width: w, tab: t, reorder: false }, range: None, origin: if it.whole { "G0f".into() } else { "G0s".into() } })
+        Some(SrcCase { src: it.text.clone(), cfg: Cfg { width: w, tab: t, reorder: false, blank: 2 }, range: None, origin: if it.whole { "G0f".into() } else { "G0s".into() } })
     }
 
     fn gen_cases(&self, tier: Tier) -> u64 {
@@ -91,7 +91,11 @@ impl Prop for C02 {
         }
         let tab = config::tab(t);
         let width = if t.chance(60) { config::targeted_width(t, env.f, &src, tab).unwrap_or(40) } else { t.pick(&WIDTHS) };
-        Some(SrcCase { src, cfg: Cfg { width, tab, reorder: false }, range: None, origin: origin.to_string() })
+        // a document compiles to the same result under *every* configuration: import reordering and the
+        // blank-line bound are part of it
+        let reorder = t.chance(48);
+        let blank = config::blank(t);
+        Some(SrcCase { src, cfg: Cfg { width, tab, reorder, blank }, range: None, origin: origin.to_string() })
     }
 
     fn excluded(&self, c: &SrcCase, env: &Env) -> Option<String> {
@@ -184,7 +188,7 @@ impl Prop for C02 {
     fn reduce(&self, c: &SrcCase, _env: &Env, fails: &mut dyn FnMut(&SrcCase) -> bool) -> SrcCase {
         let mut best = c.clone();
         for (w, t) in [(80, 2), (40, 2), (0, 2), (c.cfg.width, 2)] {
-            let cand = SrcCase { cfg: Cfg { width: w, tab: t, reorder: false }, ..best.clone() };
+            let cand = SrcCase { cfg: Cfg { width: w, tab: t, reorder: false, blank: 2 }, ..best.clone() };
             if fails(&cand) {
                 best = cand;
                 break;
